@@ -3,13 +3,13 @@ package main
 // Lock-step execution of one case on the implementation and on the Lean model.
 
 import (
-	"io"
-	"unicode/utf8"
 	"encoding/hex"
 	"encoding/json"
 	"fmt"
+	"io"
 	"strings"
 	"unicode"
+	"unicode/utf8"
 
 	te "github.com/ricochet1k/termemu"
 )
@@ -651,9 +651,9 @@ func snapCheckSafe(im *impl, step int, tags string, evFrom, wrFrom int, out *[]f
 
 // graphemeMergeState: what the classification of merge fragments remembers between runs.
 type graphemeMergeState struct {
-	forceNext  bool // the previous cluster was a lone zero-width joiner
-	forcedOdd  bool // a cluster that cannot join (not pictographic) was glued on after a lone ZWJ
-	formatChar bool // a zero-width cluster that is not an extender occurred
+	forceNext  bool   // the previous cluster was a lone zero-width joiner
+	forcedOdd  bool   // a cluster that cannot join (not pictographic) was glued on after a lone ZWJ
+	formatChar bool   // a zero-width cluster that is not an extender occurred
 	firstMerge string // the run starts with a merge fragment: its text (joins a cell written earlier)
 	lastRI     bool   // the previous run ended in an unpaired regional indicator (no control since)
 }
